@@ -196,8 +196,18 @@ def drive(a, prop, spec, seed, binary, scratch, t_start):
             if spec.get("crash_is_violation"):
                 m = FATAL_RE.search(out)
                 if m:
-                    violations.append(("crash", m.group(1), save_log(prop, out, "crash")))
-                    handled = True
+                    jp = os.path.join(wd, "journal.json")
+                    if os.path.exists(jp):
+                        try:
+                            jf = json.load(open(jp))
+                            jf["msg"] = "process died: " + m.group(1) + "\n" + crash_site(out)
+                            violations.append(("crash", jf["msg"], save_replay(prop, jf)))
+                            handled = True
+                        except Exception:
+                            pass
+                    if not handled:
+                        violations.append(("crash", m.group(1), save_log(prop, out, "crash")))
+                        handled = True
             if not handled:
                 inconclusive.append("shard %d exit %d: %s" % (s, rc, out[-1500:]))
         if os.environ.get("VERIF_VERBOSE"):
@@ -223,6 +233,12 @@ def drive(a, prop, spec, seed, binary, scratch, t_start):
         return 2
     print("OK property=%s tier=%s seed=%d wall=%.1fs" % (prop, a.tier, seed, time.time() - t_start))
     return 0
+
+
+def crash_site(out):
+    i = out.find("goroutine ")
+    lines = [l for l in out[i:i + 3000].split("\n") if "livesim2" in l]
+    return "\n".join(lines[:6])
 
 
 def first_race(out):
